@@ -15,4 +15,5 @@ Extraction "model.ml"
   TopicMatch.valid_name_spec TopicMatch.valid_filter_spec Topic.topic_match
   Redis.exec_all Redis.blob_eqb RQueue.rq_model RQueue.abstract_ops
   Crash.cur_code Crash.all_fixed Crash.code_fixes Crash.sops_cmds Crash.sops_flat Crash.ru_run
-  C09O.kf_redis_hdel_slice C09O.kf_redis_trimleft C09O.reload_ops C09O.runack_ok C09O.kf_redis_unack_reload C09O.c10r_ok C09O.rq_class.
+  C09O.kf_redis_hdel_slice C09O.kf_redis_trimleft C09O.reload_ops C09O.runack_ok C09O.kf_redis_unack_reload C09O.c10r_ok C09O.rq_class
+  Topic.split_topic C09O.crash_prefix_fails C09O.explain C09O.model_journal C09O.model_prefix Crash.jcmds.
